@@ -25,6 +25,7 @@ void vp_sym_bytes_exact(QByteArray *out, unsigned n);
 void vp_sym_string_exact(QString *out, unsigned n);
 unsigned vp_cfg(unsigned i); unsigned vp_diglen();
 void vp_split_hint_begin(const QByteArray *ba, char sep); void vp_split_hint_piece(unsigned len);
+void vp_b64_expect_valid(bool on);
 unsigned vp_orc_count();
 void vp_orc_seal(unsigned n); void vp_orc_reference(bool on);
 unsigned vp_orc_kind(unsigned i); unsigned vp_orc_alg(unsigned i); unsigned vp_orc_iters(unsigned i); unsigned long long vp_orc_dklen(unsigned i);
@@ -34,6 +35,8 @@ static inline QByteArray vpBytesN(unsigned maxlen) { QByteArray b; vp_sym_bytes_
 static inline QByteArray vpBytesExact(unsigned n) { QByteArray b; vp_sym_bytes_exact(&b, n); return b; }
 static inline QString vpStringExact(unsigned n) { QString b; vp_sym_string_exact(&b, n); return b; }
 static inline void hintPiecesOne(const QByteArray &m) { vp_split_hint_begin(&m, ','); vp_split_hint_piece(unsigned(m.size())); }
+// the next split(',') of ANY block has exactly one piece of this length (asserted by the model)
+static inline void hintAnyOnePiece(unsigned len) { vp_split_hint_begin(nullptr, ','); vp_split_hint_piece(len); }
 static inline bool vpNoByte(const QByteArray &b, char c) { for (int i = 0; i < b.size(); i++) if (b.at(i) == c) return false; return true; }
 static inline int vpCountByte(const QByteArray &b, char c) { int n = 0; for (int i = 0; i < b.size(); i++) if (b.at(i) == c) n++; return n; }
 // ASCII without NUL: the UTF-8 codec of Qt is outside the model (identity on ASCII)
